@@ -312,6 +312,17 @@ def real_vocab(case, lmap, imap, base):
     except Exception as e:  # noqa: BLE001
         out["isos"] = {"err": [type(e).__name__]}
     out["padded"] = pads
+    # padded length of every `label_maps` entry (0 when the entry is rejected before its map is read)
+    pl = []
+    for name, _ in case["maps"]:
+        try:
+            su, pr = L._unpack_stoichiometries(rxns[name].stoichiometry)
+            su = [j for i in L._stoichiometry_to_duplicate_list(su) for j in isotopomers[i]]
+            pr = [j for i in L._stoichiometry_to_duplicate_list(pr) for j in isotopomers[i]]
+            pl.append([name, max(len(su), len(pr))])
+        except Exception:  # noqa: BLE001
+            pl.append([name, 0])
+    out["padlen"] = pl
     lab = []
     if not case.get("no_iso"):
         for x, n in case["lv"]:
@@ -353,6 +364,7 @@ def canon_M(m):
             "vocab": {"helper": [({"ok": h["ok"]} if "ok" in h else {"err": [h["err"][0]]}) for h in m.get("helper", [])],
                       "padded": [list(map(lambda x: list(x) if isinstance(x, list) else x, p)) for p in m.get("padded", [])],
                       "isos": [list(x) for x in m.get("isos", [])],
+                      "padlen": [list(x) for x in m.get("padlen", [])],
                       "labelled": [list(x) for x in m.get("labelled", [])]},
             "enrich": [sorted(list(x) for x in e) for e in m.get("enrich", [])],
             "rxns": sorted([n, a, sorted(st)] for n, a, st in o["rxns"]),
